@@ -42,6 +42,13 @@ CLAIMS = {
             "Vary/ACAO/ACAC/ACEH is untouched and Vary is only appended to; a passthrough middleware is the identity. Tie: serve suite with an inner handler recording "
             "call count, pointer identity of writer and request, and that its own output reaches the recorder unchanged.",
             '6/C11', 'Pointer identity, exactly-once and empty body are runtime facts observed by the harness, not theorems.'),
+    'C14': ('proof', 'Lean 4 equivalence proof model = specification (induction over fuel/lines/elements; strict total order on byte strings) + differential tie',
+            "Theorems C14 / C14_sound / C14_browser / C14_wf (Props/C14.lean): for every SortedSet maintained by Add and every sequence of field lines over arbitrary bytes, "
+            "the model of headers.Check (windowed comma cut of maxLen+3 bytes, bounded OWS trimming with its check-before-test order, global empty-element counter, IndexAfter on the "
+            "suffix of the sorted set) equals Spec.approved: every element has at most one OWS byte per side, at most 16 (regenerated fact, proved = 16) elements are empty, the non-empty "
+            "ones are allowed names in strictly increasing order. Corollaries: no unallowed name is ever approved; a browser's sorted unique list of allowed names is approved. "
+            "Tie: acrh suite (headers.Check and TrimOWS directly, elements around the length cut-off, 0-3 OWS bytes, 15/16/17 empties, split lines) and the ACRH decision bit of the serve suite.",
+            '6/C14', 'C14_browser is proved for a single unpadded field line; tolerance of padded / split browser lists follows from C14 itself but is not yet stated as a separate theorem.'),
     'C16': ('proof', 'Lean 4 theorem (value-provenance invariant of the preflight buffer) + differential tie',
             "Theorems C16 / C16_fail / C16_distinct / C16_accepted (Props/C16.lean): debug off, any preflight: status is the single regenerated failure status or the configured "
             "success status (distinct for accepted configurations); with the failure status nothing but Vary changes; every header value the middleware sets is `*`, `true`, "
